@@ -1,6 +1,7 @@
 mod common;
 mod memops;
 mod modfam;
+mod lowfam;
 
 fn main() {
     common::install_panic_hook();
@@ -11,6 +12,7 @@ fn main() {
     }
     match args[1].as_str() {
         "module" => modfam::main(&args[2..]),
+        "lower" => lowfam::main(&args[2..]),
         f => {
             eprintln!("unknown family {}", f);
             std::process::exit(2);
